@@ -51,12 +51,24 @@ def run(only=None, tier='quick'):
             if not okp:
                 rows.append((name, 'PATCH-DOES-NOT-APPLY', ''))
                 continue
-            alarms = []
-            for p in sorted(P.PROPS if not os.environ.get('REFACTOR_PROPS') else os.environ['REFACTOR_PROPS'].split(',')):
-                rc, out = sh([os.path.join(VERIF, 'check'), p, tier], VERIF, dict({'VERIF_REPO': dst, 'VERIF_NO_EVIDENCE': '1', 'VERIF_CONTROLS': '0'}, **xenv))
-                if rc != 0:
-                    first = [l.strip() for l in out.splitlines() if l and not l.startswith(('VIOLATION', 'KNOWN', ' ')) and ':' in l][:2]
-                    alarms.append('%s(rc=%d): %s' % (p, rc, ' / '.join(first)[:400]))
+            for attempt in (0, 1):
+                alarms = []
+                tool = False
+                for p in sorted(P.PROPS if not os.environ.get('REFACTOR_PROPS') else os.environ['REFACTOR_PROPS'].split(',')):
+                    rc, out = sh([os.path.join(VERIF, 'check'), p, tier], VERIF, dict({'VERIF_REPO': dst, 'VERIF_NO_EVIDENCE': '1', 'VERIF_CONTROLS': '0'}, **xenv))
+                    if rc != 0:
+                        first = [l.strip() for l in out.splitlines() if l and not l.startswith(('VIOLATION', 'KNOWN', ' ')) and ':' in l][:2]
+                        alarms.append('%s(rc=%d): %s' % (p, rc, ' / '.join(first)[:400]))
+                    if rc == 2 and attempt == 0 and not xenv:
+                        tool = True
+                        break
+                if tool:
+                    # applies to HEAD textually but does not build there: replay on the commit it was written against
+                    shutil.rmtree(d, ignore_errors=True)
+                    d, dst, xenv, okp = tree_with(os.path.join(sd, 'patch.diff'), force_old=True)
+                    if okp:
+                        continue
+                break
             rows.append((name, 'QUIET' if not alarms else 'ALARM', '\n      '.join(alarms)))
         finally:
             shutil.rmtree(d, ignore_errors=True)
